@@ -1,6 +1,7 @@
 import StorageModel.Driver.Common
 import StorageModel.Cursor.Kinds
 import StorageModel.Cursor.Stacked
+import StorageModel.Cursor.Reuse
 /- model driver for C14: `run spec` reads case lines on stdin and prints one output line per case
    (spec = false: the engine model's output; spec = true: the spec's verdict).
 
@@ -21,6 +22,20 @@ import StorageModel.Cursor.Stacked
      PATH   others.tags | others.name | boss.tags | others.things.tags
      THINGS rows `id=tags/others/boss` ('+'-separated; lists '.'-separated, '_' empty; boss '~' = nil)
      OTHERS rows `id=tags/name` (name '~' = nil)
+
+   re-used cursor object:   R;MODE;PATH;THINGS;OTHERS;KEEP <segments>
+     one cursor object (or one provider) opened again and again on rows of one store
+     MODE   d  RuntimeEntitySetSymbol.OpenCursor on ONE runtime symbol obtained from store.GetSymbol(PATH)
+            r  rowCursorImpl.OpenSetCursor(PATH) on the row cursor of one scan (symbol cache)
+            q  rowCursorImpl.OpenSetCursorForQuery(PATH, query): the sub-query scanner; KEEP = ids the query accepts
+            q.S.L  the same with `skip S limit L` (L = -1: no limit); scripts of `n` only
+            n  a provider that builds a new cursor per call: PATH = relf | relr (GetRelatedEntitiesCursor
+               over `tags`), link (IterateLinks), rclinkf | rclinkr (ref-counted IterateLinks)
+     PATH   tags | others | rcOthers (entitySetSymbolRuntime) or a composite path
+            (others.tags | others.name | boss.tags | others.things.tags | others.things)
+     THINGS rows `id=tags/others/boss/rc` (rc: '~' = never linked, no bucket)
+     segments `ROOT:ops` separated by '/': open on the thing ROOT (hex; a missing id = no entity), then ops
+   output: for every segment the observation after opening and after every operation
 
    exhaustive block:   X <desc> <k> <op,op,…>
      every script of length ≤ k over the given operations is run; output `<count> <h> <hn>` where
@@ -126,6 +141,8 @@ structure ThingRow where
   tags : List Bytes
   others : List Bytes
   boss : Option Bytes
+  /-- ref-counted links; `none`: never linked (the entity has no bucket for the field) -/
+  rc : Option (List Bytes) := none
 
 structure OtherRow where
   id : Bytes
@@ -142,6 +159,9 @@ def parseThing (s : String) : Option ThingRow :=
   match s.splitOn "=" with
   | [i, r] => match r.splitOn "/" with
     | [t, o, b] => do pure { id := ← Bytes.ofHex i, tags := ← parseList t, others := ← parseList o, boss := ← parseOpt b }
+    | [t, o, b, rc] => do
+      let rc ← if rc = "~" then some none else (parseList rc).map some
+      pure { id := ← Bytes.ofHex i, tags := ← parseList t, others := ← parseList o, boss := ← parseOpt b, rc := rc }
     | _ => none
   | _ => none
 
@@ -181,6 +201,7 @@ def stackedChain (path : String) (things : List ThingRow) (others : List OtherRo
   | "others.name" => some [tOthers, oName]
   | "boss.tags" => some [tBoss, tTags]
   | "others.things.tags" => some [tOthers, oThings, tTags]
+  | "others.things" => some [tOthers, oThings]
   | _ => none
 
 def stackedStep (spec : Bool) (toks : List String) (o : String) : String :=
@@ -199,6 +220,131 @@ def stackedStep (spec : Bool) (toks : List String) (o : String) : String :=
 where
   /-- the spec prints element values; nil and empty are the same element -/
   rowKeyOf' (k : Bytes) : Option Bytes := some ((rowKeyOf k).getD [])
+
+
+/-! re-used cursor objects (`R` cases) -/
+
+def parseSeg (s : String) : Option (Bytes × List Op) :=
+  match s.splitOn ":" with
+  | [k, o] => do pure (← Bytes.ofHex k, ← parseOps o)
+  | _ => none
+
+def parseSegs (s : String) : Option (List (Bytes × List Op)) := (s.splitOn "/").mapM parseSeg
+
+/-- the elements a thing holds in a set field; `none`: no bucket (no such thing / never linked) -/
+def setRows (path : String) (things : List ThingRow) : Option (Bytes → Option (List Bytes)) :=
+  let find (root : Bytes) := things.find? (fun t => t.id == root)
+  match path with
+  | "tags" => some fun root => (find root).map (·.tags)
+  | "others" => some fun root => (find root).map (·.others)
+  | "rcOthers" => some fun root => (find root).bind (·.rc)
+  | _ => none
+
+/-- a provider that builds a new cursor per call -/
+def providerDesc (path : String) (things : List ThingRow) : Option (Bytes → Desc) :=
+  let find (root : Bytes) := things.find? (fun t => t.id == root)
+  let mk (d : Dir) (row : Option (List Bytes)) : Desc :=
+    match row, d with
+    | none, _ => .empty
+    | some xs, .fwd => .tfwd typeString xs
+    | some xs, .rev => .trev typeString xs
+  match path with
+  | "relf" => some fun root => mk .fwd ((find root).map (·.tags))
+  | "relr" => some fun root => mk .rev ((find root).map (·.tags))
+  | "link" => some fun root => mk .fwd ((find root).map (·.others))
+  | "rclinkf" => some fun root => mk .fwd ((find root).map fun t => t.rc.getD [])
+  | "rclinkr" => some fun root => mk .rev ((find root).map fun t => t.rc.getD [])
+  | _ => none
+
+def maxOf (l : List Nat) : Nat := l.foldl max 0
+
+def subQueryCfg (keep : List Bytes) (skip : Nat) (limit : Option Nat) : ScanCfg :=
+  { skipRow := fun _ => false, filter := Desc.mem keep, targetOffset := skip, targetLimit := limit }
+
+/-- `q` / `q.S.L` → (skip, limit) -/
+def parsePaging (mode : String) : Option (Nat × Option Nat) :=
+  match mode.splitOn "." with
+  | ["q"] => some (0, none)
+  | ["q", s, l] => do
+    let s ← s.toNat?
+    if l = "-1" then pure (s, none) else pure (s, some (← l.toNat?))
+  | _ => none
+
+/-- the window a paged cursor shows: drop `skip`, then at most `limit` -/
+def pageOf (skip : Nat) (limit : Option Nat) (l : List Bytes) : List Bytes :=
+  match limit with
+  | none => l.drop skip
+  | some n => (l.drop skip).take n
+
+/-- the spec prints element values; nil and empty are the same element -/
+def valueOf (k : Bytes) : Bytes := (rowKeyOf k).getD []
+
+def reuseStep (spec : Bool) (toks : List String) (sg : String) : String :=
+  match toks with
+  | [mode, path, th, ot, kp] =>
+    match parseRows parseThing th, parseRows parseOther ot, parseSet kp, parseSegs sg with
+    | some things, some others, some keep, some segs =>
+      let paging := parsePaging mode
+      let isQ := paging.isSome
+      let (skip, limit) := paging.getD (0, none)
+      let paged := skip != 0 || limit.isSome
+      let cfg := subQueryCfg keep skip limit
+      if mode = "n" then
+        match providerDesc path things with
+        | some descOf =>
+          showRun (segs.flatMap fun seg =>
+            if spec then (descOf seg.1).spec.openRun seg.2 else (descOf seg.1).open.run seg.2)
+        | none => "bad-case"
+      else match setRows path things with
+      | some rows =>
+        if isQ then
+          if spec then
+            -- the linked ids of the row that the query accepts, in key order (an id is never empty);
+            -- Seek: the set symbol's raw seek (compares with the stored keys), then the next accepted row
+            showRun (segs.flatMap fun seg =>
+              let E := ((rows seg.1).map dedupSort).getD []
+              let ok := fun (x : Bytes) => !x.isEmpty && Desc.mem keep x
+              if paged then (Spec.plain (pageOf skip limit (E.filter ok))).openRun seg.2 else
+              ({ list := E.filter ok,
+                 seek := some fun v _ => (E.dropWhile fun e => decide (prependFieldType typeString e < v)).filter ok,
+                 seekS := none } : Spec).openRun seg.2)
+          else
+            let fuel := maxOf (segs.map fun seg => (setRowSpec (rows seg.1)).list.length) + 2
+            showRun ((scanReusable (setSymReusable rows) cfg fuel).run segs
+              { cursor := setSymNew, current := none, offset := 0, collected := 0 })
+        else if spec then
+          showRun (segs.flatMap fun seg => (setRowSpec (rows seg.1)).openRun seg.2)
+        else showRun ((setSymReusable rows).run segs setSymNew)
+      | none =>
+        match stackedChain path things others with
+        | some chain =>
+          let rowOf : Bytes → Option Bytes := some
+          let fuel := maxOf (segs.map fun seg => stackedFuel chain (some seg.1))
+          if isQ then
+            if spec then
+              -- the values the walk yields that are keys of rows the query accepts; Seek is forward only
+              showRun (segs.flatMap fun seg =>
+                let vals := ((stackedKeys chain (some seg.1)).filterMap rowKeyOf).filter (Desc.mem keep)
+                if paged then (Spec.plain (pageOf skip limit vals)).openRun seg.2 else
+                ({ list := vals, seek := some fun v rem => rem.dropWhile (fun x => decide (x < v)), seekS := none } : Spec).openRun
+                  seg.2)
+            else
+              let fuel' := maxOf (segs.map fun seg => (stackedKeys chain (some seg.1)).length) + 2
+              showRun ((scanReusable (compReusable chain fuel rowOf) cfg fuel').run segs
+                { cursor := { stack := [], key := none }, current := none, offset := 0, collected := 0 })
+          else if spec then
+            showRun (segs.flatMap fun seg => (Spec.plain ((stackedKeys chain (some seg.1)).map valueOf)).openRun seg.2)
+          else showRun ((compReusable chain fuel rowOf).run segs { stack := [], key := none })
+        | none => "bad-case"
+    | _, _, _, _ => "bad-case"
+  | _ => "bad-case"
+
+def reuseCase (line : String) : Option (List String × String) :=
+  match splitSp line with
+  | [d, o] => match d.splitOn ";" with
+    | "R" :: toks => some (toks, o)
+    | _ => none
+  | _ => none
 
 structure Case where
   desc : Desc
@@ -269,6 +415,9 @@ def step (line : String) : String :=
   match splitSp line with
   | ["X", d, k, a] => blockStep false d k a
   | _ =>
+    match reuseCase line with
+    | some (toks, o) => reuseStep false toks o
+    | none =>
     match stackedCase line with
     | some (toks, o) => stackedStep false toks o
     | none =>
@@ -280,6 +429,9 @@ def specStep (line : String) : String :=
   match splitSp line with
   | ["X", d, k, a] => blockStep true d k a
   | _ =>
+    match reuseCase line with
+    | some (toks, o) => reuseStep true toks o
+    | none =>
     match stackedCase line with
     | some (toks, o) => stackedStep true toks o
     | none =>
